@@ -350,7 +350,10 @@ Hold == /\ IsKind("hold") /\ K' = K /\ g' = g /\ Next1
 
 Kfault == /\ IsKind("kfault") /\ K' = [K EXCEPT !.kfault = TRUE] /\ g' = g /\ Next1
 
-Crash == /\ IsKind("crash") /\ K' = KBad(K, {"C17", "C18"}, "crash:" \o Line.cls) /\ g' = g /\ Next1
+Crash == /\ IsKind("crash")
+         /\ IF Line.go THEN K' = KBad(K, {"C17", "C18"}, "crash:" \o Line.cls) /\ g' = g
+                       ELSE K' = K /\ g' = Infra("worker died without a Go panic, fatal error or race report (" \o Line.cls \o ")")
+         /\ Next1
 Other == /\ l <= Len(Trace) /\ Line.k \in {"bad"} /\ K' = K /\ g' = Infra("bad step") /\ Next1
 
 Next == (Reset \/ End \/ New \/ Fs \/ Call \/ Recv \/ Drain \/ Obs \/ Kmodel \/ Hold \/ Kfault \/ Crash \/ Other)
